@@ -26,7 +26,10 @@ def returned_reduction(db, f):
         if l['nested'] != 1 or len(ids) != 1:
             return None, f'accumulator loop nest of depth {l["nested"]} over positions {sorted(map(str, ids))}'
         l['L'] = next(iter(ids))
-        hdr = common.loop_of_elem(f, ('elem', None, l['L'])) if not isinstance(l['L'], tuple) else None
+        if isinstance(l['L'], tuple):
+            hdr = l['L'][1] if l['L'][0] == 'while' else None
+        else:
+            hdr = common.loop_of_elem(f, ('elem', None, l['L']))
         if hdr != l['header']:
             return None, 'the accumulated term is not driven by the iterator of the accumulating loop'
         l['extents'] = C.extents.get(l['L'])
